@@ -39,6 +39,11 @@ class HarnessError(Exception):
     """The harness itself is broken (never reported as a violation)."""
 
 
+class BudgetStop(BaseException):
+    """Time budget exhausted: aborts the running Hypothesis test (BaseException, so Hypothesis does not treat it as a
+    failure).  Skipping inside the test instead would make stateful generation flaky (preconditions would depend on time)."""
+
+
 @dataclass
 class Part:
     name: str
@@ -240,8 +245,7 @@ def run_part_shard(module_name: str, part_name: str, tier: str, seed: int, shard
 
                 gc.collect()
             if ctx.out_of_time():
-                ctx.skipped_budget += 1
-                return
+                raise BudgetStop()
             ctx.begin_case()
             try:
                 part.body(case, ctx)
@@ -280,7 +284,16 @@ def run_part_shard(module_name: str, part_name: str, tier: str, seed: int, shard
                     def test_v(case):
                         run_one(case)
 
-                    test_v()
+                    try:
+                        test_v()
+                    except Violation:
+                        raise
+                    except BaseException:  # noqa: BLE001
+                        if ctx.last_failure is None and ctx.out_of_time():
+                            res["extra"]["budget_exhausted"] = True
+                            res["extra"]["variants_not_run"] = len(mine) - vi
+                            break
+                        raise
                     ctx.labels["variants_run"] += 1
             else:
                 from hypothesis import given
@@ -297,13 +310,21 @@ def run_part_shard(module_name: str, part_name: str, tier: str, seed: int, shard
                 test()
         except Violation:
             pass
+        except BudgetStop:
+            res["extra"]["budget_exhausted"] = True
         except HarnessError:
             raise
         except BaseException as e:  # noqa: BLE001
-            if ctx.last_failure is None:
+            if ctx.last_failure is None and ctx.out_of_time():
+                # aborting on the time budget makes Hypothesis see a shorter run for a known prefix (FlakyStrategyDefinition
+                # and friends): that is the budget, not a harness error
+                res["extra"]["budget_exhausted"] = True
+                res["extra"]["budget_stop_via"] = type(e).__name__
+            elif ctx.last_failure is None:
                 raise
-            # Flaky / wrapped errors after a genuine failure was captured: keep the failure.
-            res["extra"]["post_failure_exception"] = f"{type(e).__name__}: {str(e)[:200]}"
+            else:
+                # Flaky / wrapped errors after a genuine failure was captured: keep the failure.
+                res["extra"]["post_failure_exception"] = f"{type(e).__name__}: {str(e)[:200]}"
 
         if ctx.last_failure is not None:
             case, msg, key = ctx.last_failure
@@ -318,7 +339,8 @@ def run_part_shard(module_name: str, part_name: str, tier: str, seed: int, shard
             res["failure"] = {"case": case, "message": msg, "key": key, "reproduced": reproduced}
         res.update(
             evaluations=ctx.evaluations, labels=dict(ctx.labels), nontrivial=sorted(ctx.nontrivial),
-            distinct=len(ctx.distinct), samples=ctx.samples, skipped_budget=ctx.skipped_budget,
+            distinct=len(ctx.distinct), samples=ctx.samples,
+            skipped_budget=max(ctx.skipped_budget, max(0, n_examples - ctx.evaluations) if res["extra"].get("budget_exhausted") else 0),
             known_hits=dict(ctx.known_hits),
         )
         res["extra"].update(ctx.extra)
